@@ -139,7 +139,11 @@ Definition side_effects (c : chip) (written : list N) : chip :=
     if Nat.leb 2 (length written) && negb (N.land (nthN written 0) 0x80 =? 0) then
       let a := N.land (nthN written 0) 0x7f in
       let c1 := if a =? 0x0d then with_fifo c (nthN written 1) else c in
-      if a =? 0 then c1
+      if a =? 0 then
+        (* FIFO write at the address pointer *)
+        let '(buf', ptr') := fold_left (fun bp v => let '(b, p) := bp in (set_nthN b (N.to_nat p) v, (p + 1) mod 256)) (skipn 1 written) (c_buf c1, c_fifo c1) in
+        {| c_kind := c_kind c1; c_regs := c_regs c1; c_reads := c_reads c1; c_fill := c_fill c1; c_buf := buf'; c_fifo := ptr';
+           c_events := c_events c1; c_fault := c_fault c1 |}
       else if a =? 0x12 then     (* RegIrqFlags: writing a 1 clears the flag *)
         with_regs c1 (set_nthN (c_regs c1) 0x12 (N.land (nthN (c_regs c1) 0x12) (N.lxor 255 (nthN written 1 mod 256))))
       else with_regs c1 (write_regs (c_regs c1) (N.to_nat a) (skipn 1 written) 4096)
